@@ -85,12 +85,25 @@ def scenario(shape):
                           {'signature': f'stale-answer:{k}', 'class': cls})
         # by-height queries for every block
         for b in st.main:
+            # a proof request first (it works on the cached per-block hash list), then every position and the
+            # first position past the end, which must be refused
+            r = fs.spawn(st._query(c, 'id_from_pos_merkle', (b.height, 0)), 'final id_from_pos_merkle')
+            fs.quiesce(1)
+            eng.prove(r['done'] and r['error'] is None and r['result']['tx_hash'] == hash_to_hex_str(b.txs[0].hash),
+                      'quiescent id-from-position (with proof) differs from the current chain',
+                      {'signature': 'stale-answer:id_from_pos_merkle', 'height': b.height})
             for pos, tx in enumerate(b.txs):
                 r = fs.spawn(st._query(c, 'id_from_pos', (b.height, pos)), 'final id_from_pos')
                 fs.quiesce(1)
                 eng.prove(r['done'] and r['error'] is None and r['result'] == hash_to_hex_str(tx.hash),
                           'quiescent id-from-position differs from the current chain',
                           {'signature': 'stale-answer:id_from_pos', 'height': b.height, 'pos': pos})
+            r = fs.spawn(st._query(c, 'id_from_pos', (b.height, len(b.txs))), 'final id_from_pos past the end')
+            fs.quiesce(1)
+            from aiorpcx import RPCError
+            eng.prove(r['done'] and isinstance(r['error'], RPCError),
+                      'quiescent id-from-position answers for a position past the end of the block',
+                      {'signature': 'stale-answer:id_from_pos-past-end', 'height': b.height, 'result': repr(r['result'])})
         if shape.get('trace'):
             eng.note('trace: ' + ' | '.join(fs.sched.trace))
             import sys as _s
@@ -132,6 +145,11 @@ def shapes(tier):
     out.append({'initial': INITIAL + [payA, payAB], 'deviations': 0, 'early': False,
                 'script': [('query', 0, 'id_from_pos', (h, 0)) for h in (0, 1, 2, 3, 4, 5, 3, 1)] +
                           [('reorg', 2, [cbB, payA, cbC])]})
+    # a block with an odd number (3) of transactions, proofs asked before and after it is replaced by a 3-tx block
+    three = {'cb': 'C', 'txs': [{'ins': 1, 'outs': 'A'}, {'ins': 1, 'outs': 'B'}]}
+    out.append({'initial': INITIAL + [three], 'deviations': d1, 'early': False,
+                'script': [('query', 0, 'id_from_pos_merkle', (3, 2)), ('query', 0, 'id_from_pos', (3, 2)),
+                           ('reorg', 1, [dict(three, cb='B'), cbA])]})
     # a by-height read that starts just before the undo (while the reorg range is being worked out) and may be delivered
     # (postponed) after the reorg handler cleared the caches but before the next notification
     out.append({'initial': INITIAL + [payA], 'deviations': d1, 'early': False, 'hold': True,
@@ -159,7 +177,7 @@ KERNELS = [
                     '_handle_chain_reorgs', 'tx_hashes_at_blockheight', 'ElectrumX.confirmed_and_unconfirmed_history',
                     'get_balance', 'hashX_listunspent', 'unconfirmed_history', 'transaction_id_from_pos',
                     'electrumx/server/db.py:DB.limited_history', 'all_utxos', 'tx_hashes_at_blockheight'],
-           bounds='8 (quick) / 18 (thorough) scripted stories with queries placed before, inside (right after '
+           bounds='9 (quick) / 20 (thorough) scripted stories with queries placed before, inside (right after '
                   'backup_block returns) and after reorganisation windows or racing a block; interleaving as in C07 '
                   '(1 / 2 deviations)',
            outside='as C07; cache eviction by capacity (1000 entries)',
